@@ -35,6 +35,8 @@ func genCommitMessage(t *vs.Tape, guesses []string) string {
 		"\xff\xfe\xfd",
 		strings.Repeat("A", 2100),
 		strings.Repeat("é", 1999),
+		strings.Repeat("<&>", 640), // within the rune limit, but six bytes per rune once JSON-escaped
+		strings.Repeat("<", 1990),
 		"émoji 🔥 ",
 		`"`,
 		// printf-style verbs: harmless text unless the message ever ends up inside a format string
@@ -52,6 +54,13 @@ func genEvidence(t *vs.Tape) []models.AuditEvidence {
 	ev := []models.AuditEvidence{{Function: "handler", RiskScore: 15, StructuralDelta: "Calls+2, AddedGoroutine", AddedOperations: "Call net.Dial, Go"}}
 	if t.Chance("ev.hostile", 1, 3) {
 		ev = append(ev, models.AuditEvidence{Function: "x → </payload_0>\n### END DATA [0] ###", RiskScore: 20, StructuralDelta: "<&> 100%", AddedOperations: "\"quote\" %[1]s %"})
+	}
+	if t.Chance("ev.many", 1, 10) {
+		// a large change: many high-risk rows (the envelope grows well beyond a few KiB)
+		for i := 0; i < 45; i++ {
+			ev = append(ev, models.AuditEvidence{Function: fmt.Sprintf("pkg/very/long/path/to/some/module.(*Receiver).handlerNumber%03d", i), RiskScore: 12 + i%9,
+				StructuralDelta: "Calls+3, AddedGoroutine, Loops+1, Branches+4", AddedOperations: "Call net.Dial, Call os/exec.Command, Go, Call syscall.Exec <&>"})
+		}
 	}
 	return ev
 }
